@@ -30,6 +30,21 @@ impl Schedule {
         dummy_idx: VehicleIdx,
         vehicle_type_idx: VehicleTypeIdx,
     ) -> Result<(Schedule, VehicleIdx), String> {
+        #[cfg(rssched_verif)]
+        if crate::verif::call_enter() {
+            let _guard = crate::verif::CallGuard;
+            let result = self.spawn_vehicle_to_replace_dummy_tour(dummy_idx, vehicle_type_idx);
+            crate::verif::call_exit(
+                "spawn_vehicle_to_replace_dummy_tour",
+                serde_json::json!({"dummy": dummy_idx.to_string(), "ty": crate::verif::type_id(self, vehicle_type_idx)}),
+                self,
+                result
+                    .as_ref()
+                    .map(|(s, v)| (s, serde_json::json!({"id": v.to_string()})))
+                    .map_err(|e| e.clone()),
+            );
+            return result;
+        }
         let nodes: Vec<NodeIdx> = self
             .dummy_tours
             .get(&dummy_idx)
@@ -71,6 +86,23 @@ impl Schedule {
         vehicle_type_idx: VehicleTypeIdx,
         path_as_vec: Vec<NodeIdx>,
     ) -> Result<(Schedule, VehicleIdx), String> {
+        #[cfg(rssched_verif)]
+        if crate::verif::call_enter() {
+            let _guard = crate::verif::CallGuard;
+            let args = serde_json::json!({"ty": crate::verif::type_id(self, vehicle_type_idx),
+                "path": crate::verif::node_ids(self, path_as_vec.iter().copied())});
+            let result = self.spawn_vehicle_for_path(vehicle_type_idx, path_as_vec);
+            crate::verif::call_exit(
+                "spawn_vehicle_for_path",
+                args,
+                self,
+                result
+                    .as_ref()
+                    .map(|(s, v)| (s, serde_json::json!({"id": v.to_string()})))
+                    .map_err(|e| e.clone()),
+            );
+            return result;
+        }
         if path_as_vec.iter().any(|n| {
             !self
                 .network
@@ -151,6 +183,18 @@ impl Schedule {
     /// # Errors
     /// If the vehicle is not a real vehicle an error is returned.
     pub fn replace_vehicle_by_dummy(&self, vehicle_idx: VehicleIdx) -> Result<Schedule, String> {
+        #[cfg(rssched_verif)]
+        if crate::verif::call_enter() {
+            let _guard = crate::verif::CallGuard;
+            let result = self.replace_vehicle_by_dummy(vehicle_idx);
+            crate::verif::call_exit(
+                "replace_vehicle_by_dummy",
+                serde_json::json!({"v": vehicle_idx.to_string()}),
+                self,
+                result.as_ref().map(|s| (s, serde_json::json!({}))).map_err(|e| e.clone()),
+            );
+            return result;
+        }
         if !self.is_vehicle(vehicle_idx) {
             return Err(format!(
                 "Cannot delete vehicle {} from schedule.",
@@ -242,6 +286,24 @@ impl Schedule {
         vehicle_idx: VehicleIdx,
         path: Path,
     ) -> Result<(Schedule, Option<Path>), String> {
+        #[cfg(rssched_verif)]
+        if crate::verif::call_enter() {
+            let _guard = crate::verif::CallGuard;
+            let args = serde_json::json!({"v": vehicle_idx.to_string(), "path": crate::verif::node_ids(self, path.iter())});
+            let result = self.add_path_to_vehicle_tour(vehicle_idx, path);
+            crate::verif::call_exit(
+                "add_path_to_vehicle_tour",
+                args,
+                self,
+                result
+                    .as_ref()
+                    .map(|(s, removed)| {
+                        (s, serde_json::json!({"removed": removed.as_ref().map(|p| crate::verif::node_ids(self, p.iter())).unwrap_or_default()}))
+                    })
+                    .map_err(|e| e.clone()),
+            );
+            return result;
+        }
         if let Ok(vehicle_type_id) = self.vehicle_type_of(vehicle_idx) {
             if path.iter().any(|n| {
                 !self
@@ -348,6 +410,19 @@ impl Schedule {
         segment: Segment,
         vehicle_idx: VehicleIdx,
     ) -> Result<Schedule, String> {
+        #[cfg(rssched_verif)]
+        if crate::verif::call_enter() {
+            let _guard = crate::verif::CallGuard;
+            let result = self.remove_segment(segment, vehicle_idx);
+            crate::verif::call_exit(
+                "remove_segment",
+                serde_json::json!({"v": vehicle_idx.to_string(), "s": crate::verif::node_id(self, segment.start()),
+                    "e": crate::verif::node_id(self, segment.end())}),
+                self,
+                result.as_ref().map(|s| (s, serde_json::json!({}))).map_err(|e| e.clone()),
+            );
+            return result;
+        }
         if !self.is_vehicle(vehicle_idx) {
             return Err(format!(
                 "Cannot remove segment {} from vehicle {}. Vehicle is not a real vehicle.",
@@ -441,6 +516,19 @@ impl Schedule {
         provider: VehicleIdx,
         receiver: VehicleIdx,
     ) -> Result<Schedule, String> {
+        #[cfg(rssched_verif)]
+        if crate::verif::call_enter() {
+            let _guard = crate::verif::CallGuard;
+            let result = self.fit_reassign(segment, provider, receiver);
+            crate::verif::call_exit(
+                "fit_reassign",
+                serde_json::json!({"p": provider.to_string(), "r": receiver.to_string(),
+                    "s": crate::verif::node_id(self, segment.start()), "e": crate::verif::node_id(self, segment.end())}),
+                self,
+                result.as_ref().map(|s| (s, serde_json::json!({}))).map_err(|e| e.clone()),
+            );
+            return result;
+        }
         if !self.check_receiver_type_compatibility(provider, receiver, segment) {
             return Err(format!(
                 "Cannot fit_reassign segment {} from vehicle {} to vehicle {}. Vehicle types do not match and segment contains service trip.",
@@ -523,6 +611,22 @@ impl Schedule {
         provider: VehicleIdx,
         receiver: VehicleIdx,
     ) -> Result<(Schedule, Option<VehicleIdx>), String> {
+        #[cfg(rssched_verif)]
+        if crate::verif::call_enter() {
+            let _guard = crate::verif::CallGuard;
+            let result = self.override_reassign(segment, provider, receiver);
+            crate::verif::call_exit(
+                "override_reassign",
+                serde_json::json!({"p": provider.to_string(), "r": receiver.to_string(),
+                    "s": crate::verif::node_id(self, segment.start()), "e": crate::verif::node_id(self, segment.end())}),
+                self,
+                result
+                    .as_ref()
+                    .map(|(s, d)| (s, serde_json::json!({"dummy": d.map(|x| x.to_string()).unwrap_or_default()})))
+                    .map_err(|e| e.clone()),
+            );
+            return result;
+        }
         if !self.check_receiver_type_compatibility(provider, receiver, segment) {
             return Err(format!(
                 "Cannot override_reassign segment {} from vehicle {} to vehicle {}. Vehicle types do not match and segment contains service trip.",
@@ -633,6 +737,15 @@ impl Schedule {
     /// Assumes that vehicle are real vehicle in schedule.
     /// Panics if a vehicle is not a real vehicle.
     pub fn improve_depots(&self, vehicles: Option<Vec<VehicleIdx>>) -> Schedule {
+        #[cfg(rssched_verif)]
+        if crate::verif::call_enter() {
+            let _guard = crate::verif::CallGuard;
+            let args = serde_json::json!({"all": vehicles.is_none(),
+                "vs": vehicles.clone().unwrap_or_default().iter().map(|v| v.to_string()).collect::<Vec<_>>()});
+            let result = self.improve_depots(vehicles);
+            crate::verif::call_exit("improve_depots", args, self, Ok((&result, serde_json::json!({}))));
+            return result;
+        }
         let mut tours = self.tours.clone();
         let mut next_period_transitions = self.next_period_transitions.clone();
         let mut depot_usage = self.depot_usage.clone();
@@ -733,6 +846,18 @@ impl Schedule {
 
     /// Reassigns the end depots of all vehicles greedily. Capacties of depots are ignored.
     pub fn reassign_end_depots_greedily(&self) -> Result<Schedule, String> {
+        #[cfg(rssched_verif)]
+        if crate::verif::call_enter() {
+            let _guard = crate::verif::CallGuard;
+            let result = self.reassign_end_depots_greedily();
+            crate::verif::call_exit(
+                "reassign_end_depots_greedily",
+                serde_json::json!({}),
+                self,
+                result.as_ref().map(|s| (s, serde_json::json!({}))).map_err(|e| e.clone()),
+            );
+            return result;
+        }
         let mut tours = self.tours.clone();
         let mut next_period_transitions = self.next_period_transitions.clone();
         let mut depot_usage = self.depot_usage.clone();
@@ -791,6 +916,15 @@ impl Schedule {
         &self,
         vehicle_types: Option<Vec<VehicleTypeIdx>>,
     ) -> Schedule {
+        #[cfg(rssched_verif)]
+        if crate::verif::call_enter() {
+            let _guard = crate::verif::CallGuard;
+            let args = serde_json::json!({"all": vehicle_types.is_none(),
+                "tys": vehicle_types.clone().unwrap_or_default().iter().map(|&t| crate::verif::type_id(self, t)).collect::<Vec<_>>()});
+            let result = self.recompute_transitions_for(vehicle_types);
+            crate::verif::call_exit("recompute_transitions_for", args, self, Ok((&result, serde_json::json!({}))));
+            return result;
+        }
         let mut next_period_transitions = self.next_period_transitions.clone();
         let mut maintenance_violation = self.maintenance_violation;
 
@@ -821,6 +955,18 @@ impl Schedule {
 
     /// Reassign the end depots such that they are consistent with the transition.
     pub fn reassign_end_depots_consistent_with_transitions(&self) -> Schedule {
+        #[cfg(rssched_verif)]
+        if crate::verif::call_enter() {
+            let _guard = crate::verif::CallGuard;
+            let result = self.reassign_end_depots_consistent_with_transitions();
+            crate::verif::call_exit(
+                "reassign_end_depots_consistent_with_transitions",
+                serde_json::json!({}),
+                self,
+                Ok((&result, serde_json::json!({}))),
+            );
+            return result;
+        }
         let mut tours = self.tours.clone();
         let mut next_day_transitions = self.next_period_transitions.clone();
         let mut depot_usage = self.depot_usage.clone();
